@@ -185,6 +185,8 @@ def run(ctx):
     if nflag < 1:
         raise FactError('skoolkit/skoolmacro.py: no bit-tested flag parameter found')
     order_and_alias_rules(ctx, repo)
+    from sa.rules import C17fold
+    C17fold.run(ctx, repo)
     from sa.rules import memo
     memo.run_for(ctx, repo, 'C17')
     return report.finish(ctx, EXPLANATION)
